@@ -6,6 +6,7 @@ from __future__ import annotations
 import collections
 import multiprocessing
 import os
+import sys
 import signal
 import traceback
 from dataclasses import dataclass, field
@@ -235,6 +236,21 @@ def shard_map(fn: Callable[[Any], Any], items: List[Any], workers: Optional[int]
             raise HarnessError("worker failed:\n" + res)
         out.append(res)
     return out
+
+
+class default_recursion:
+    """Run library code under the interpreter's DEFAULT recursion limit (the checker itself raises the limit for its own
+    walkers): a change that makes the library recurse once per block must fail here as it would for a user."""
+    DEFAULT = 1000
+
+    def __enter__(self):
+        self._old = sys.getrecursionlimit()
+        sys.setrecursionlimit(self.DEFAULT)
+        return self
+
+    def __exit__(self, *exc):
+        sys.setrecursionlimit(self._old)
+        return False
 
 
 class CpuBudget:
